@@ -1,4 +1,8 @@
 import Driver.C07
+import Driver.C16
+import Driver.C17
+import Driver.C02
+import Driver.C11
 import Driver.C19
 import Driver.Ring
 open Driver
@@ -6,6 +10,10 @@ open Driver
 def main (args : List String) : IO UInt32 := do
   match args with
   | ["C07"] => run C07.handler
+  | ["C16"] => run C16.handler
+  | ["C17"] => run C17.handler
+  | ["C02"] => run C02.handler
+  | ["C11"] => run C11.handler
   | ["C19"] => run C19.handler
   | ["C04"] => run (Ring.handler "C04")
   | ["C05"] => run (Ring.handler "C05")
